@@ -488,13 +488,33 @@ func checkClientConn(key string, svc ServiceSpec, scripts map[int]Script, cs Cli
 		if cm.AmbiguousFrom >= 0 {
 			limit = cm.AmbiguousFrom
 		}
+		if serverMayHangUp {
+			// The connection's context may be cancelled at any time: from then on every
+			// reply attempt fails towards the handler while its bytes may or may not
+			// have reached the wire. What is observed must be a subsequence of what the
+			// handlers issued, in order (nothing foreign, nothing twice, nothing reordered).
+			j := 0
+			for i := 0; i < len(obs); i++ {
+				for j < limit && !sameReply(obs[i], exp[j]) {
+					j++
+				}
+				if j >= limit {
+					if cm.AmbiguousFrom < 0 && !cm.RawMode {
+						out = append(out, vio("reply-stream", "reply-not-issued", "%s reply %d: observed %v is not among the replies the handlers issued after the ones already matched", key, i, obs[i]))
+					}
+					break
+				}
+				j++
+			}
+			obs, exp, limit = nil, nil, 0
+		}
 		for i := 0; i < len(obs) && i < limit; i++ {
 			if !sameReply(obs[i], exp[i]) {
 				out = append(out, vio("reply-stream", replyKey(exp[i], obs[i]), "%s reply %d: expected %v, observed %v", key, i, exp[i], obs[i]))
 				break
 			}
 		}
-		if cm.AmbiguousFrom < 0 && !cm.RawMode {
+		if cm.AmbiguousFrom < 0 && !cm.RawMode && !serverMayHangUp {
 			if len(obs) > len(exp) {
 				out = append(out, vio("reply-stream", "extra-reply", "%s: %d replies expected, %d observed; first extra %v", key, len(exp), len(obs), obs[len(exp)]))
 			} else if len(obs) < len(exp) && !faulted {
